@@ -460,6 +460,7 @@ impl ExecutionPlan for FlatMatchQueryExec {
                 unindexed_input,
                 column,
                 query.terms,
+                query.operator,
                 &inverted_idx,
             ))
         })
